@@ -114,6 +114,38 @@ Definition poll_step (s : status_state) (p : poll) : status_state := update_stat
 Definition run_polls (s : status_state) (ps : list poll) : list hstate := run s (map poll_ok ps).
 Definition state_after_polls (s : status_state) (ps : list poll) : status_state := run_state s (map poll_ok ps).
 
+(* state notifications made by ONE poll (report_proxy_agent_aggregate_status -> write_state_event, then
+   extension_substatus -> write_state_event): first the outcome of reading the file under the key
+   ReadProxyAgentStatusFile, then -- only when the file was read -- the outcome of the version comparison under
+   the key FileVersion.  Each notification goes through write_state_event, which emits an event exactly when
+   update_service_state_entry(key, value, MAX_STATE_COUNT) returns true.  Keys and values are abstract here
+   (two distinct keys, two distinct values); install attempts make no state notification. *)
+Definition key_read : bytes := [0].
+Definition key_version : bytes := [1].
+Definition val_success : bytes := [0].
+Definition val_error : bytes := [1].
+Definition poll_notes (p : poll) : list (bytes * bytes) :=
+  match p with
+  | PollReadErr => [(key_read, val_error)]
+  | PollMismatch => [(key_read, val_success); (key_version, val_error)]
+  | PollHealthy => [(key_read, val_success); (key_version, val_success)]
+  | PollInstall => []
+  end.
+(* the events of a whole poll history, one boolean per notification, from an empty ServiceState *)
+Definition poll_events (ps : list poll) : list bool :=
+  run_entries [] (flat_map poll_notes ps) Consts.ext_max_state_count.
+(* number of events emitted by each poll of the history *)
+Fixpoint poll_event_counts_from (m : smap) (ps : list poll) : list N :=
+  match ps with
+  | [] => []
+  | p :: t =>
+      let step := fold_left (fun '(m0, n) '(k, v) =>
+                    let '(m1, b) := update_entry m0 k v Consts.ext_max_state_count in
+                    (m1, if b then n + 1 else n)) (poll_notes p) (m, 0) in
+      snd step :: poll_event_counts_from (fst step) t
+  end.
+Definition poll_event_counts (ps : list poll) : list N := poll_event_counts_from [] ps.
+
 (* `impl Default for StatusState { fn default() -> Self { Self::new() } }` *)
 Definition ss_default : status_state := ss_new.
 
